@@ -6,7 +6,7 @@ import random, json, sys, os, glob, ast
 from ..harness import coq, impl, pygen
 
 pid = 'C19'
-gen_modules = ['tr_transformer', 'tr_rest_lintcontract', 'tr_rest_decoratecli', 'tr_rest_transformerconst']
+gen_modules = ['tr_transformer', 'tr_rest_lintcontract', 'tr_rest_decoratecli', 'tr_rest_transformerconst', 'tr_rest_climain']
 model_targets = ['Sem/ScnDecorate.v']
 hand_modelled = ['coq/Sem/DecorateModel.v: Transformer.transform / _mutations_excs / _mutations_markers / _mutations_property / _mutations_pure / _mutations_import / '
                  '_get_insert_line (hand-written; source pinned by tools/py2coq/transformer_pins.json)',
